@@ -256,6 +256,12 @@ def convert_slots_to_new(slots, log=None):
                     i = ro['index']
                     o = ro['occupation']
                     cores.append(RO(index=i, occupation=o))
+            elif len(cores[0]) != 2:
+                # list of core index lists (one per rank), as written by
+                # `convert_slots_to_old`.  NOTE: two-element entries remain
+                # `(index, occupation)` pairs, see below
+                cores = [RO(index=i, occupation=1.0)
+                         for cmap in slot['cores'] for i in cmap]
             else:
                 cores = [RO(index=i, occupation=o)
                          for i,o in slot['cores']]
@@ -274,6 +280,10 @@ def convert_slots_to_new(slots, log=None):
                     i = ro['index']
                     o = ro['occupation']
                     gpus.append(RO(index=i, occupation=o))
+            elif len(gpus[0]) != 2:
+                # list of gpu index lists (one per rank), see above
+                gpus  = [RO(index=i, occupation=1.0)
+                         for gmap in slot['gpus'] for i in gmap]
             else:
                 gpus  = [RO(index=i, occupation=o)
                          for i,o in slot['gpus']]
